@@ -252,11 +252,6 @@ cmd('RCPT', params={'arg': 'Bytes'}, props=['C07'],
 
 # ---- DATA phase
 klass('DataReader')
-extern('DataReader.__init__', params={'self': 'DataReader', 'io': 'IO', 'max_size': 'Any'}, defaults={'max_size': 'None'})
-extern('DataReader.recv', params={'self': 'DataReader'}, returns='Bytes', yields=True,
-       requires=['in_timeout_scope()'],
-       raises={'ConnectionLost': [], 'MessageTooBig': [], 'Timeout': []},
-       notes='DataReader.recv blocks on the peer: G4 requires an enclosing Timeout scope (C14); its own contract: C05/C09')
 extern('IO.recv_command', params={'self': 'IO'}, returns='Tuple[Opt[Bytes], Opt[Bytes]]', yields=True,
        requires=['in_timeout_scope()'],
        raises={'ConnectionLost': [], 'Timeout': []},
@@ -277,8 +272,8 @@ contract('Server._get_message_data', module=M, props=['C07', 'C14', 'C09'], scop
              ONECB + '"HAVE_DATA"', TRACE_PREFIX, SENT1, PREFIX,
              'self.have_mailfrom is None and self.have_rcptto is None', TXN_SAME],
          raises={'ConnectionLost': [NOCB, 'len(self.io.sent) == old(len(self.io.sent))'],
-                 'Timeout': [NOCB, 'len(self.io.sent) == old(len(self.io.sent))']},
-         modifies=CMD_MOD + ['self.have_mailfrom', 'self.have_rcptto', 'fresh'])
+                 'Timeout': [NOCB, 'len(self.io.sent) == old(len(self.io.sent))'], 'OSError': [], 'AssertionError': []},
+         modifies=CMD_MOD + ['self.have_mailfrom', 'self.have_rcptto', 'self.io.recv_buffer', 'fresh'])
 
 cmd('DATA', props=['C07'],
     requires=S_OK,
@@ -295,8 +290,8 @@ cmd('DATA', props=['C07'],
              'implies(len(self.trace) == old(len(self.trace)) + 1, ' + SENT1 + ' and not (' + LAST + ' == "354"))',
              'len(self.trace) <= old(len(self.trace)) + 2', TXN_SAME],
     raises={'StopIteration': [SENT1, ONECB + '"DATA"'],
-            'ConnectionLost': [], 'Timeout': []},
-    modifies=CMD_MOD + ['self.have_mailfrom', 'self.have_rcptto', 'fresh'])
+            'ConnectionLost': [], 'Timeout': [], 'OSError': [], 'AssertionError': []},
+    modifies=CMD_MOD + ['self.have_mailfrom', 'self.have_rcptto', 'self.io.recv_buffer', 'fresh'])
 
 cmd('custom', params={'command': 'Str', 'arg': 'Opt[Bytes]'}, props=['C07'],
     requires=S_OK,
